@@ -17,9 +17,13 @@
 //!   c19.cmap.write     random maps u16 → non-empty strings (BMP + supplementary planes; runs, singletons, the
 //!                      ends of the code range): `write_cmap` text vs model text, and the text read back by
 //!                      `Font::to_unicode` vs the model reader                                       in domain
-//!   c19.cmap.parse     conformant CMap programs from a generator (header, codespace ranges, comments, any
-//!                      white space, upper/lower-case hex, 1- and 2-byte codes, bfchar, both bfrange forms)
+//!   c19.cmap.parse     conformant CMap programs from a generator: PostScript header / trailer, `usecmap`, codespace
+//!                      ranges, dictionaries, literal strings, counts, any number and order of blocks, comments ended by
+//!                      LF or CR anywhere, all six white-space characters (also inside hexadecimal strings), digits in
+//!                      either case, 1- and 2-byte codes, bfchar, both bfrange forms, text after `endcmap`
 //!                                                                                                   in domain
+//!   c19.cmap.conf      domain certificate: every program of c19.cmap.parse with the entries the generator meant is sent to
+//!                      the driver's sound checker for `CMapSpells` (must answer 1); seven non-spellings must get 0  in domain
 //!   c19.cmap.file      the same through a /ToUnicode stream of a font in a generated file (Flate or plain)
 //!                                                                                                   in domain
 //!   c19.cmap.outside   damaged programs (bytes replaced, truncated, unpaired surrogates, odd digits, long
@@ -875,11 +879,14 @@ fn cmap_write(driver: &Driver, or: &mut Oracle, seed: u64, n: u64, only: Option<
     rep.streams.push(st);
 }
 
+/// an entry of a bfchar / bfrange block as the specification sees it: codes and Unicode strings (scalar values)
 #[derive(Clone, Debug)]
 enum BfEntry {
-    Char { cid: u16, one_byte: bool, dst: Vec<u8> },
-    RangeStr { lo: u16, hi: u16, one_byte: bool, dst: Vec<u8> },
-    RangeArr { lo: u16, hi: u16, one_byte: bool, dsts: Vec<Vec<u8>> },
+    Char { cid: u16, s: Vec<u32> },
+    /// string form `<lo> <hi> <dst0>`: code lo+i maps to ss[i]; the UTF-16BE of ss[i] is that of ss[0] with the last byte + i
+    RangeStr { lo: u16, ss: Vec<Vec<u32>> },
+    /// array form `<lo> <hi> [<dst0> …]`
+    RangeArr { lo: u16, ss: Vec<Vec<u32>> },
 }
 
 fn utf16be(s: &[u32]) -> Vec<u8> {
@@ -887,26 +894,20 @@ fn utf16be(s: &[u32]) -> Vec<u8> {
     st.encode_utf16().flat_map(|u| u.to_be_bytes()).collect()
 }
 
-/// what the specification says the entry maps (ISO 32000-1 9.10.3 / Adobe TN 5411): independent of the library
+fn utf16be_decode(b: &[u8]) -> Vec<u32> {
+    let u: Vec<u16> = b.chunks(2).map(|c| u16::from_be_bytes([c[0], c[1]])).collect();
+    char::decode_utf16(u).map(|r| r.unwrap() as u32).collect()
+}
+
+/// what the specification says the entries map (ISO 32000-1 9.10.3 / Adobe TN 5411): independent of the library
 fn spec_denote(entries: &[BfEntry]) -> UMap {
-    let dec = |b: &[u8]| -> Vec<u32> {
-        let u: Vec<u16> = b.chunks(2).map(|c| u16::from_be_bytes([c[0], c[1]])).collect();
-        char::decode_utf16(u).map(|r| r.unwrap() as u32).collect()
-    };
     let mut m = UMap::new();
     for e in entries {
         match e {
-            BfEntry::Char { cid, dst, .. } => { m.insert(*cid, dec(dst)); }
-            BfEntry::RangeStr { lo, hi, dst, .. } => {
-                for (i, c) in (*lo..=*hi).enumerate() {
-                    let mut d = dst.clone();
-                    *d.last_mut().unwrap() += i as u8;
-                    m.insert(c, dec(&d));
-                }
-            }
-            BfEntry::RangeArr { lo, hi, dsts, .. } => {
-                for (i, c) in (*lo..=*hi).enumerate() {
-                    m.insert(c, dec(&dsts[i]));
+            BfEntry::Char { cid, s } => { m.insert(*cid, s.clone()); }
+            BfEntry::RangeStr { lo, ss } | BfEntry::RangeArr { lo, ss } => {
+                for (i, s) in ss.iter().enumerate() {
+                    m.insert(*lo + i as u16, s.clone());
                 }
             }
         }
@@ -914,43 +915,128 @@ fn spec_denote(entries: &[BfEntry]) -> UMap {
     m
 }
 
-fn ws(rng: &mut Rng) -> &'static str {
-    *rng.pick(&[" ", " ", " ", "\n", "\t", "  ", "\r\n", " \n ", "\r"])
+/// the entries in the notation of the driver's `c19.conf` request
+fn entries_req(entries: &[BfEntry]) -> String {
+    let us = |s: &Vec<u32>| if s.is_empty() { "e".to_string() } else { s.iter().map(|c| c.to_string()).collect::<Vec<_>>().join("+") };
+    if entries.is_empty() {
+        return "-".into();
+    }
+    entries
+        .iter()
+        .map(|e| match e {
+            BfEntry::Char { cid, s } => format!("c:{}:{}", cid, us(s)),
+            BfEntry::RangeStr { lo, ss } => format!("s:{}:{}", lo, ss.iter().map(us).collect::<Vec<_>>().join("|")),
+            BfEntry::RangeArr { lo, ss } => format!("a:{}:{}", lo, ss.iter().map(us).collect::<Vec<_>>().join("|")),
+        })
+        .collect::<Vec<_>>()
+        .join(";")
 }
 
-fn hexs(b: &[u8], rng: &mut Rng, lower: bool) -> String {
-    let mut s = String::from("<");
-    for (i, x) in b.iter().enumerate() {
-        if i > 0 && rng.chance(1, 40) { s.push(' '); }
-        s.push_str(&if lower { format!("{:02x}", x) } else { format!("{:02X}", x) });
+/// layout choices of a generated program
+#[derive(Clone, Copy)]
+struct Layout {
+    /// all six white-space characters, comments (ended by LF or CR), literal strings and dictionaries in the junk
+    rich: bool,
+    /// header / trailer / `endcmap`
+    framed: bool,
+}
+
+/// one separator run: white space (any of the six characters) and comments; empty only if `!must`
+fn sep(rng: &mut Rng, lay: Layout, must: bool) -> String {
+    let n = if must { 1 + rng.usize(3) } else { rng.usize(3) };
+    let mut s = String::new();
+    for _ in 0..n {
+        if lay.rich && rng.chance(1, 8) {
+            s.push('%');
+            s.push_str(*rng.pick(&["", " a comment", " <0000> <0041>", " beginbfchar <01> <0041> endbfchar", "%EndComments", " endcmap ] >"]));
+            s.push(if rng.chance(1, 2) { '\n' } else { '\r' });
+        } else if lay.rich {
+            s.push_str(*rng.pick(&[" ", " ", "\n", "\t", "\r", "\r\n", "\x0c", "\0", "  "]));
+        } else {
+            s.push_str(*rng.pick(&[" ", " ", "\n", "\t", "\r\n", "  "]));
+        }
     }
+    s
+}
+
+/// a hexadecimal string: digits in either case, white space between digits
+fn hexs(b: &[u8], rng: &mut Rng, lay: Layout) -> String {
+    let style = rng.below(3); // upper, lower, mixed
+    let mut s = String::from("<");
+    for x in b {
+        for d in [x >> 4, x & 15] {
+            if rng.chance(1, 40) {
+                s.push_str(if lay.rich { *rng.pick(&[" ", "\n", "\x0c", "\0", "\t", "\r"]) } else { " " });
+            }
+            let lower = match style { 0 => false, 1 => true, _ => rng.chance(1, 2) };
+            s.push(std::char::from_digit(d as u32, 16).map(|c| if lower { c } else { c.to_ascii_uppercase() }).unwrap());
+        }
+    }
+    if rng.chance(1, 40) { s.push(' '); }
     s.push('>');
     s
 }
 
-fn code_hex(c: u16, one_byte: bool, rng: &mut Rng, lower: bool) -> String {
-    if one_byte { hexs(&[c as u8], rng, lower) } else { hexs(&c.to_be_bytes(), rng, lower) }
+/// a code: two bytes, or one byte when it fits and the coin says so
+fn code_hex(c: u16, rng: &mut Rng, lay: Layout) -> String {
+    if c < 256 && rng.chance(1, 3) { hexs(&[c as u8], rng, lay) } else { hexs(&c.to_be_bytes(), rng, lay) }
 }
 
-/// a conformant CMap program and the entries it holds; cids of different entries do not overlap
-fn gen_cmap_program(rng: &mut Rng) -> (Vec<u8>, Vec<BfEntry>, String) {
-    let lower = rng.chance(1, 4);
-    let one_byte_cs = rng.chance(1, 6);
+/// tokens that the reader skips between blocks: PostScript header / trailer material
+fn junk_tokens(rng: &mut Rng, lay: Layout, n: usize) -> Vec<String> {
+    let words = ["def", "begin", "end", "dict", "findresource", "12", "usecmap", "CMapName", "currentdict", "defineresource", "pop", "begincmap",
+        "1", "begincodespacerange", "endcodespacerange", "3.5", "-1", "endbfchars", "beginbfcharx", "Endcmap", "R", "true"];
+    let names = ["/CIDInit", "/ProcSet", "/Registry", "/Ordering", "/Supplement", "/CMapName", "/Adobe-Identity-UCS", "/CMapType", "/CIDSystemInfo", "/", "/beginbfchar"];
+    let mut v = vec![];
+    for _ in 0..n {
+        match rng.below(if lay.rich { 8 } else { 4 }) {
+            0 | 1 => v.push(rng.pick(&words).to_string()),
+            2 => v.push(rng.pick(&names).to_string()),
+            3 => { v.push("<".into()); v.push(rng.pick(&["0000", "FFFF", "00", "ff", "8140"]).to_string()); v.push(">".into()); }
+            4 => { v.push("(".into()); v.push(rng.pick(&["Adobe", "UCS", "Identity", "CIDInit"]).to_string()); v.push(")".into()); }
+            5 => { v.push("<<".into()); v.push("/Registry".into()); v.push("(".into()); v.push("Adobe".into()); v.push(")".into()); v.push("/Supplement".into()); v.push("0".into()); v.push(">>".into()); }
+            6 => v.push(rng.pick(&["[", "]", "{", "}"]).to_string()),
+            _ => v.push(rng.pick(&words).to_string()),
+        }
+    }
+    v
+}
+
+fn is_regular_byte(b: u8) -> bool {
+    !matches!(b, 0 | 9 | 10 | 12 | 13 | 32 | b'(' | b')' | b'<' | b'>' | b'[' | b']' | b'{' | b'}' | b'/' | b'%')
+}
+
+/// append a token: a separator is needed between two regular characters and between two angle brackets
+fn push_tok(t: &mut String, tok: &str, rng: &mut Rng, lay: Layout) {
+    let last = t.as_bytes().last().copied();
+    let first = tok.as_bytes()[0];
+    let must = match last {
+        None => false,
+        Some(l) => (is_regular_byte(l) && is_regular_byte(first)) || (l == b'<' && first == b'<') || (l == b'>' && first == b'>') || l == b'/',
+    };
+    t.push_str(&sep(rng, lay, must));
+    t.push_str(tok);
+}
+
+/// A conformant CMap program and the entries it holds. Cids of different entries do not overlap (the specification
+/// does not say which of two definitions of a code wins).
+fn gen_cmap_program_with(rng: &mut Rng, lay: Layout) -> (Vec<u8>, Vec<BfEntry>, String) {
     let mut used = std::collections::BTreeSet::<u16>::new();
     let mut sections: Vec<Vec<BfEntry>> = vec![];
     let nsec = rng.usize(5);
     let mut desc = String::new();
+    let small = rng.chance(1, 5); // a one-byte code space
     for _ in 0..nsec {
         let is_char = rng.chance(1, 2);
         let cnt = 1 + rng.usize(6);
         let mut sec = vec![];
         for _ in 0..cnt {
-            let maxc: u32 = if one_byte_cs { 255 } else { 65535 };
-            let lo = match rng.below(5) { 0 => rng.below(20) as u32, 1 => maxc - rng.below(8) as u32, _ => rng.below(maxc as u64 + 1) as u32 };
+            let maxc: u32 = if small { 255 } else { 65535 };
+            let lo = match rng.below(5) { 0 => rng.below(20) as u32, 1 => maxc - rng.below(8) as u32, 2 => rng.below(256) as u32, _ => rng.below(maxc as u64 + 1) as u32 };
             if is_char {
                 if used.contains(&(lo as u16)) { continue; }
                 used.insert(lo as u16);
-                sec.push(BfEntry::Char { cid: lo as u16, one_byte: one_byte_cs, dst: utf16be(&rand_str(rng)) });
+                sec.push(BfEntry::Char { cid: lo as u16, s: rand_str(rng) });
                 desc.push('c');
             } else {
                 let len = 1 + rng.below(12) as u32;
@@ -958,17 +1044,17 @@ fn gen_cmap_program(rng: &mut Rng) -> (Vec<u8>, Vec<BfEntry>, String) {
                 if (lo..=hi).any(|c| used.contains(&(c as u16))) { continue; }
                 for c in lo..=hi { used.insert(c as u16); }
                 if rng.chance(1, 2) {
-                    // string form: the last byte must not overflow within the range
+                    // string form: the last byte must not overflow within the range; only the low byte of the last unit
+                    // moves, so the strings stay valid UTF-16 (a low surrogate stays in DC00..DFFF)
                     let mut d = utf16be(&rand_str(rng));
                     let l = d.len();
-                    let last = d[l - 1] as u32;
-                    if last + (hi - lo) > 255 { d[l - 1] = (255 - (hi - lo)) as u8; }
-                    // keep it valid UTF-16: a changed low byte of a low surrogate stays a low surrogate (DC00..DFFF)
-                    sec.push(BfEntry::RangeStr { lo: lo as u16, hi: hi as u16, one_byte: one_byte_cs, dst: d });
+                    if d[l - 1] as u32 + (hi - lo) > 255 { d[l - 1] = (255 - (hi - lo)) as u8; }
+                    let ss = (0..=(hi - lo)).map(|i| { let mut x = d.clone(); x[l - 1] += i as u8; utf16be_decode(&x) }).collect();
+                    sec.push(BfEntry::RangeStr { lo: lo as u16, ss });
                     desc.push('s');
                 } else {
-                    let dsts = (lo..=hi).map(|_| utf16be(&rand_str(rng))).collect();
-                    sec.push(BfEntry::RangeArr { lo: lo as u16, hi: hi as u16, one_byte: one_byte_cs, dsts });
+                    let ss = (lo..=hi).map(|_| rand_str(rng)).collect();
+                    sec.push(BfEntry::RangeArr { lo: lo as u16, ss });
                     desc.push('a');
                 }
             }
@@ -976,63 +1062,69 @@ fn gen_cmap_program(rng: &mut Rng) -> (Vec<u8>, Vec<BfEntry>, String) {
         if !sec.is_empty() { sections.push(sec); }
     }
     let mut t = String::new();
-    if rng.chance(1, 2) { t.push_str("%!PS-Adobe-3.0 Resource-CMap\n%%DocumentNeededResources: ProcSet (CIDInit)\n"); }
-    if rng.chance(3, 4) {
-        t.push_str("/CIDInit /ProcSet findresource begin\n12 dict begin\nbegincmap\n");
-        t.push_str("/CIDSystemInfo << /Registry (Adobe) /Ordering (UCS) /Supplement 0 >> def\n/CMapName /Adobe-Identity-UCS def\n/CMapType 2 def\n");
-        t.push_str(if one_byte_cs { "1 begincodespacerange\n<00> <FF>\nendcodespacerange\n" } else { "1 begincodespacerange\n<0000> <FFFF>\nendcodespacerange\n" });
+    if lay.framed && lay.rich && rng.chance(1, 2) {
+        t.push_str(if rng.chance(1, 2) { "%!PS-Adobe-3.0 Resource-CMap\n%%DocumentNeededResources: ProcSet (CIDInit)\r" } else { "%!PS-Adobe-3.0 Resource-CMap\r\n" });
+    }
+    if lay.framed {
+        for tok in ["/CIDInit", "/ProcSet", "findresource", "begin", "12", "dict", "begin", "begincmap"] { push_tok(&mut t, tok, rng, lay); }
+        if rng.chance(1, 3) { for tok in ["/Adobe-Japan1-UCS2", "usecmap"] { push_tok(&mut t, tok, rng, lay); } }
+        let nj = rng.usize(6);
+        let toks = junk_tokens(rng, lay, nj);
+        for tok in &toks { push_tok(&mut t, tok, rng, lay); }
+        for tok in ["1", "begincodespacerange", "<", if small { "00" } else { "0000" }, ">", "<", if small { "FF" } else { "FFFF" }, ">", "endcodespacerange"] { push_tok(&mut t, tok, rng, lay); }
     }
     let mut all = vec![];
     for sec in &sections {
         let is_char = matches!(sec[0], BfEntry::Char { .. });
-        t.push_str(&format!("{}{}{}", sec.len(), ws(rng), if is_char { "beginbfchar" } else { "beginbfrange" }));
-        t.push_str(ws(rng));
+        if rng.chance(1, 3) {
+            let nj = 1 + rng.usize(3);
+            let toks = junk_tokens(rng, lay, nj);
+            for tok in &toks { push_tok(&mut t, tok, rng, lay); }
+        }
+        if rng.chance(5, 6) { push_tok(&mut t, &sec.len().to_string(), rng, lay); }
+        push_tok(&mut t, if is_char { "beginbfchar" } else { "beginbfrange" }, rng, lay);
         for e in sec {
-            if rng.chance(1, 10) { t.push_str("% a comment <0000> <0041>\n"); }
             match e {
-                BfEntry::Char { cid, one_byte, dst } => {
-                    t.push_str(&code_hex(*cid, *one_byte, rng, lower));
-                    if rng.chance(3, 4) { t.push_str(ws(rng)); }
-                    t.push_str(&hexs(dst, rng, lower));
+                BfEntry::Char { cid, s } => {
+                    push_tok(&mut t, &code_hex(*cid, rng, lay), rng, lay);
+                    push_tok(&mut t, &hexs(&utf16be(s), rng, lay), rng, lay);
                 }
-                BfEntry::RangeStr { lo, hi, one_byte, dst } => {
-                    t.push_str(&code_hex(*lo, *one_byte, rng, lower));
-                    if rng.chance(3, 4) { t.push_str(ws(rng)); }
-                    t.push_str(&code_hex(*hi, *one_byte, rng, lower));
-                    if rng.chance(3, 4) { t.push_str(ws(rng)); }
-                    t.push_str(&hexs(dst, rng, lower));
+                BfEntry::RangeStr { lo, ss } => {
+                    push_tok(&mut t, &code_hex(*lo, rng, lay), rng, lay);
+                    push_tok(&mut t, &code_hex((*lo as u32 + ss.len() as u32 - 1) as u16, rng, lay), rng, lay);
+                    push_tok(&mut t, &hexs(&utf16be(&ss[0]), rng, lay), rng, lay);
                 }
-                BfEntry::RangeArr { lo, hi, one_byte, dsts } => {
-                    t.push_str(&code_hex(*lo, *one_byte, rng, lower));
-                    if rng.chance(3, 4) { t.push_str(ws(rng)); }
-                    t.push_str(&code_hex(*hi, *one_byte, rng, lower));
-                    if rng.chance(3, 4) { t.push_str(ws(rng)); }
-                    t.push('[');
-                    for (i, d) in dsts.iter().enumerate() {
-                        if i > 0 || rng.chance(1, 3) { t.push_str(ws(rng)); }
-                        t.push_str(&hexs(d, rng, lower));
-                    }
-                    if rng.chance(1, 3) { t.push_str(ws(rng)); }
-                    t.push(']');
+                BfEntry::RangeArr { lo, ss } => {
+                    push_tok(&mut t, &code_hex(*lo, rng, lay), rng, lay);
+                    push_tok(&mut t, &code_hex((*lo as u32 + ss.len() as u32 - 1) as u16, rng, lay), rng, lay);
+                    push_tok(&mut t, "[", rng, lay);
+                    for s in ss { push_tok(&mut t, &hexs(&utf16be(s), rng, lay), rng, lay); }
+                    push_tok(&mut t, "]", rng, lay);
                 }
             }
-            t.push_str(ws(rng));
             all.push(e.clone());
         }
-        t.push_str(if is_char { "endbfchar" } else { "endbfrange" });
-        t.push_str(ws(rng));
+        push_tok(&mut t, if is_char { "endbfchar" } else { "endbfrange" }, rng, lay);
     }
-    if rng.chance(3, 4) {
-        t.push_str("endcmap\nCMapName currentdict /CMap defineresource pop\nend\nend\n");
+    if lay.framed && rng.chance(3, 4) {
+        push_tok(&mut t, "endcmap", rng, lay);
         // what follows endcmap is never read
-        if rng.chance(1, 4) { t.push_str("1 beginbfchar <0001> <0041> endbfchar\n"); }
+        t.push_str(*rng.pick(&["\nCMapName currentdict /CMap defineresource pop\nend\nend\n", " 1 beginbfchar <0001> <0041> endbfchar\n", "", "\r", "%%EOF", "(", "<"]));
+    } else {
+        t.push_str(&sep(rng, lay, false));
     }
     (t.into_bytes(), all, desc)
+}
+
+fn gen_cmap_program(rng: &mut Rng) -> (Vec<u8>, Vec<BfEntry>, String) {
+    let lay = Layout { rich: rng.chance(3, 4), framed: rng.chance(3, 4) };
+    gen_cmap_program_with(rng, lay)
 }
 
 fn cmap_parse(driver: &Driver, or: &mut Oracle, seed: u64, n: u64, only: Option<u64>, rep: &mut Report) {
     let mut st = Stream::new("c19.cmap.parse", true);
     let mut reqs = vec![];
+    let mut creqs = vec![];
     let mut imps = vec![];
     for case in 0..n {
         if only.map(|o| o != case).unwrap_or(false) { continue; }
@@ -1052,12 +1144,40 @@ fn cmap_parse(driver: &Driver, or: &mut Oracle, seed: u64, n: u64, only: Option<
         }
         reqs.push(format!("c19.parse {} {}", hex(&text), tag));
         imps.push(imp);
+        // domain certificate: the text is a member of `CMapSpells entries` (sound checker run by the driver)
+        creqs.push((format!("c19.conf {} {} {}", entries_req(&entries), hex(&text), tag), "1"));
+        for (k, b) in [("comment", b'%'), ("form_feed", 0x0cu8), ("nul", 0u8), ("cr", b'\r'), ("literal_string", b'('), ("dict", b'{')] {
+            if text.contains(&b) { st.count(&format!("layout={}", k)); }
+        }
+    }
+    if only.is_none() {
+        // the certificate must be able to refuse: texts that are no spelling of the entries given
+        let e1 = vec![BfEntry::Char { cid: 3, s: vec![0x41] }];
+        let e2 = vec![BfEntry::RangeArr { lo: 16, ss: vec![vec![0x41], vec![0x42]] }];
+        for (es, text) in [
+            (&e1, &b"1 beginbfchar <0003> <0042> endbfchar"[..]),            // other destination
+            (&e1, b"1 beginbfchar <0003> <0041> % no end of line"),          // unterminated comment swallows the end
+            (&e1, b"1 beginbfchar <0003> (A) endbfchar"),                    // literal string
+            (&e1, b"1 beginbfchar <0003> <0041> endbfchar beginbfchar <0004> <0041> endbfchar"), // an entry too many
+            (&e2, b"1 beginbfrange <0010> <0011> [<0041>, <0042>] endbfrange"), // comma (D39)
+            (&e2, b"1 beginbfrange <0010> <0012> [<0041> <0042>] endbfrange"),  // wrong last code
+            (&e1, b"1 beginbfchar<0003><0041>endbfcharx"),                   // block not closed by the keyword
+        ] {
+            creqs.push((format!("c19.conf {} {} @c19.cmap.conf/0/neg", entries_req(es), hex(text)), "0"));
+        }
     }
     let resp = driver.ask(&reqs);
     for ((rq, m), i) in reqs.iter().zip(resp.iter()).zip(imps.iter()) {
         st.case(rq, m, i, rq.len() > 100);
     }
     rep.streams.push(st);
+    let mut sc = Stream::new("c19.cmap.conf", true);
+    let resp = driver.ask(&creqs.iter().map(|c| c.0.clone()).collect::<Vec<_>>());
+    for ((rq, want), m) in creqs.iter().zip(resp.iter()) {
+        sc.count(if m == "1" { "certified" } else { "refused" });
+        sc.case(rq, m, want, rq.len() > 100);
+    }
+    rep.streams.push(sc);
 }
 
 fn cmap_file(driver: &Driver, or: &mut Oracle, seed: u64, n: u64, only: Option<u64>, rep: &mut Report) {
@@ -1124,10 +1244,8 @@ fn cmap_outside(driver: &Driver, seed: u64, n: u64, rep: &mut Report) {
     let alphabet: &[u8] = b"<>[]0123456789ABCDEFabcdef \n\tbeginfchrax/,.{}";
     for case in 0..n {
         let mut rng = Rng::derive(seed, "c19.cmap.outside", case);
-        let (mut text, _, _) = gen_cmap_program(&mut rng);
-        // drop literal strings and comments of the header: the damage below could move them into a section
-        let s = String::from_utf8_lossy(&text).replace("(Adobe)", "/Adobe").replace("(UCS)", "/UCS").replace("(CIDInit)", "CIDInit");
-        text = s.into_bytes();
+        // plain layout (no literal strings, comments, `endcmap`): the damage below may move anything into a section
+        let (mut text, _, _) = gen_cmap_program_with(&mut rng, Layout { rich: false, framed: false });
         let kind = rng.below(8);
         match kind {
             0 => { let k = 1 + rng.usize(3); for _ in 0..k { if !text.is_empty() { let i = rng.usize(text.len()); text[i] = *rng.pick(alphabet); } } }
